@@ -5,6 +5,7 @@ CONSTANTS
   Dev_BuiltinIgnoreList = TRUE
   Dev_AddEmptyNameReturns = FALSE
   Dev_QuitRefusedWhenBusy = FALSE
+  Dev_SocketEventStartsAll = FALSE
   Configs <- mc_Configs
   Requests <- mc_Requests
   MaxReq = 1
@@ -12,6 +13,7 @@ CONSTANTS
   MaxExt = 0
   MaxFork = 0
   MaxSig = 0
+  MaxSock = 0
   MaxNow = 8
   MaxPid = 4
   DieStatuses <- mc_DieStatuses
